@@ -1341,6 +1341,15 @@ def run(ck: common.Check, replay=None):
     ph = os.environ.get("C02_PHASES")
     if ph and replay is None:
         designs = [d for d in designs if any(d.name.startswith(x) for x in ph.split(","))]
+    tg = os.environ.get("C02_TAG")
+    if tg and replay is None:
+        # debugging aid: only the expressions whose operator tag matches
+        keep = []
+        for d in designs:
+            ns = [n for n in d.nodes if any(re.search(tg, t_) for t_ in n.all_tags())]
+            if ns:
+                keep.append(Design(d.name, ns, d.clocked))
+        designs = keep
     lim = int(os.environ.get("C02_LIMIT", "0") or 0)
     if lim and replay is None:
         designs = designs[::max(1, len(designs) // lim)][:lim]
